@@ -716,6 +716,13 @@ def check(ctx):
                        key=f"C17.7:{q}:{tgt.name}", kinds=sorted(kinds))
             c = b.get("confirm_overwrite")
             ok, why = _confirm_arg_ok(c, e)
+            if ok is None:
+                # computed from more than the --no_warnings flag (a directory
+                # listing taken beforehand, an earlier prompt ...): whether
+                # it is on whenever the destination exists is not modelled
+                ctx.undecidable("C17.3", e, f"{q} -> {tgt.qualname}: "
+                                f"confirm_overwrite = {fmt(c)[:100]}")
+                continue
             ctx.ob("C17.3", e, ok,
                    f"{q} -> {tgt.qualname}: confirm_overwrite "
                    + (f"= {fmt(c)} ({why})" if c is not None else
@@ -844,7 +851,7 @@ def _nonempty_suffix(last: T, live: T) -> Optional[bool]:
     return None
 
 
-def _confirm_arg_ok(c: Optional[T], e: Event) -> Tuple[bool, str]:
+def _confirm_arg_ok(c: Optional[T], e: Event):
     if c is None:
         return False, "missing"
     if c.op == "unop" and c.args[0] == "Not" and c.args[1].op == "attr" \
@@ -862,7 +869,7 @@ def _confirm_arg_ok(c: Optional[T], e: Event) -> Tuple[bool, str]:
         return False, "constant False without a prompt"
     if tm.is_const(c, True):
         return True, "constant True"
-    return False, "unrecognised provenance"
+    return None, "unrecognised provenance"
 
 
 def _check_prompt(ctx):
